@@ -149,7 +149,20 @@ class Ctx:
                 if n_ not in env:
                     if n_ not in defaults:
                         return _oe.NOT_MODELLED
-                    env[n_] = _oe.Evaluator({}, ctx.fold_sym(m, sym_map)).ev(defaults[n_])
+                    try:
+                        env[n_] = _oe.Evaluator({}, ctx.fold_sym(m, sym_map)).ev(defaults[n_])
+                    except _oe.Unsupported:
+                        # a default written as a bare class-body name (`flags: int = FLAGS_DFLT`): the class constant of that name
+                        dn = defaults[n_]
+                        hit = None
+                        if isinstance(dn, _ast.Name) and m.cls is not None:
+                            for kk in prog.mro(m.cls):
+                                if dn.id in kk.consts:
+                                    hit = prog.fold(kk.consts[dn.id], kk.module, kk)
+                                    break
+                        if not isinstance(hit, (int, str, bytes)):
+                            raise
+                        env[n_] = hit
             env["__class__"] = m.cls
             def sub_cv(c2, e2, _d=depth + 1):
                 return cv(c2, e2, _d)
@@ -421,7 +434,11 @@ class Ctx:
             t = _norm(x)
             if t in mapping:
                 return mapping[t]
-            if isinstance(x, (_ast.Name, _ast.Attribute)) or (isinstance(x, _ast.Call) and _norm(x.func) in ("calcsize", "struct.calcsize")):
+            dyn_fmt = isinstance(x, _ast.Call) and _norm(x.func) in ("calcsize", "struct.calcsize") and any(
+                isinstance(c_, _ast.Call) and isinstance(c_.func, _ast.Attribute) and isinstance(c_.func.value, _ast.Name) and c_.func.value.id in ("cls", "self") for c_ in _ast.walk(x))
+            # calcsize(cls.format()) / calcsize(self.format()): the format builder is dispatched on the object's dynamic class by the evaluator
+            # (a static fold would take the defining class's builder - the empty base format for the AHAB containers)
+            if not dyn_fmt and (isinstance(x, (_ast.Name, _ast.Attribute)) or (isinstance(x, _ast.Call) and _norm(x.func) in ("calcsize", "struct.calcsize"))):
                 try:
                     v = prog.fold(x, fn.module, fn.cls)
                 except Exception:  # noqa: BLE001
